@@ -26,10 +26,11 @@ step('build-with-change', 'cargo build --offline 2>&1 | tail -1')
 demo = 'bash demo/run.sh %s/target/debug/rapidquilt' % wt
 rc_mut, _ = step('demo-with-change', demo)
 # 2. without the change: demo passes
-step('stash', 'git stash -q -- src')
+# (no `git stash`: the stash is shared between worktrees)
+step('take-the-change-out', 'git diff -- src > .seed_eval.diff && git apply -R .seed_eval.diff')
 step('build-without-change', 'cargo build --offline 2>&1 | tail -1')
 rc_base, _ = step('demo-without-change', demo)
-step('unstash', 'git stash pop -q')
+step('put-the-change-back', 'git apply .seed_eval.diff && rm -f .seed_eval.diff')
 confirmed = suite_ok and rc_mut != 0 and rc_base == 0
 print('CONFIRMED' if confirmed else 'NOT CONFIRMED', 'suite_ok=%s demo_with=%d demo_without=%d' % (suite_ok, rc_mut, rc_base))
 if not confirmed:
@@ -45,8 +46,9 @@ for root, dirs, files in os.walk(os.path.join(dst, 'demo')):
         p = os.path.join(root, f)
         if os.path.getsize(p) > 300000:
             os.unlink(p)
-if os.path.exists(os.path.join(wt, 'NOTES.md')):
-    shutil.copy(os.path.join(wt, 'NOTES.md'), os.path.join(dst, 'NOTES.md'))
+for notes in ('NOTES.md', 'NOTES.txt'):
+    if os.path.exists(os.path.join(wt, notes)):
+        shutil.copy(os.path.join(wt, notes), os.path.join(dst, 'NOTES.md'))
 # 3. the checks against the change
 results = {}
 p = sh('git -C /repo apply --check %s/patch.diff && git -C /repo apply %s/patch.diff' % (dst, dst))
